@@ -49,8 +49,23 @@ fn err_str(what: &str, e: &agdb::DbError) -> String {
     format!("{what}:{}/{}", c.category, c.ty)
 }
 
-/// `deep` adds traversals from every node, keys, key counts and index searches in result order.
+/// dump under catch_unwind: a panic / huge allocation while reading becomes a read error
 pub fn dump<S: StorageData>(db: &DbImpl<S>, deep: bool) -> (Dump, Live) {
+    match crate::guard::guarded(|| dump_raw(db, deep)) {
+        Ok(r) => r,
+        Err(b) => (
+            Dump {
+                text: format!("ERR {}\n", b.line()),
+                read_errors: vec![b.line()],
+                elements: 0,
+            },
+            Live::default(),
+        ),
+    }
+}
+
+/// `deep` adds traversals from every node, keys, key counts and index searches in result order.
+pub fn dump_raw<S: StorageData>(db: &DbImpl<S>, deep: bool) -> (Dump, Live) {
     let mut d = Dump::default();
     let mut live = Live::default();
     let mut t = String::new();
